@@ -21,10 +21,21 @@ type r2nlState struct {
 	lits  []r2sibLit
 	flags map[types.Object]bool
 	dec   []string
+	// bool locals holding the result of a nil test of a tracked local (`ok := t != nil`), valid until
+	// either side is assigned again
+	nilb map[types.Object]r2nlNilTest
+}
+
+type r2nlNilTest struct {
+	of types.Object
+	eq bool // the bool is true when the local IS nil
 }
 
 func r2nlClone(s *r2nlState) *r2nlState {
-	n := &r2nlState{st: map[types.Object]int{}, flags: map[types.Object]bool{}}
+	n := &r2nlState{st: map[types.Object]int{}, flags: map[types.Object]bool{}, nilb: map[types.Object]r2nlNilTest{}}
+	for k, v := range s.nilb {
+		n.nilb[k] = v
+	}
 	for k, v := range s.st {
 		n.st[k] = v
 	}
@@ -148,12 +159,54 @@ func ruleNilLocal(c *Ctx) []Obligation {
 					return true
 				})
 			}
+			// nilTestOf: `x != nil` / `nil == x` on a tracked local
+			nilTestOf := func(e ast.Expr) (types.Object, bool, bool) {
+				b, ok := ast.Unparen(e).(*ast.BinaryExpr)
+				if !ok || (b.Op != token.EQL && b.Op != token.NEQ) {
+					return nil, false, false
+				}
+				var id *ast.Ident
+				if y, ok := ast.Unparen(b.Y).(*ast.Ident); ok && y.Name == "nil" {
+					id, _ = ast.Unparen(b.X).(*ast.Ident)
+				} else if x, ok := ast.Unparen(b.X).(*ast.Ident); ok && x.Name == "nil" {
+					id, _ = ast.Unparen(b.Y).(*ast.Ident)
+				}
+				if id == nil {
+					return nil, false, false
+				}
+				o := info.Uses[id]
+				if _, tr := tracked[o]; !tr {
+					return nil, false, false
+				}
+				return o, b.Op == token.EQL, true
+			}
+			// noteBool: an assignment `b = rhs` to a bool local records or forgets a held nil test
+			noteBool := func(st *r2nlState, bo types.Object, rhs ast.Expr) {
+				if bo == nil {
+					return
+				}
+				delete(st.nilb, bo)
+				for k, v := range st.nilb {
+					if v.of == bo {
+						delete(st.nilb, k)
+					}
+				}
+				if rhs == nil {
+					return
+				}
+				if o, eq, ok := nilTestOf(rhs); ok {
+					if _, isVar := bo.(*types.Var); isVar && types.Identical(bo.Type().Underlying(), types.Typ[types.Bool]) {
+						st.nilb[bo] = r2nlNilTest{o, eq}
+					}
+				}
+			}
 			assign := func(st *r2nlState, lhs ast.Expr, rhs ast.Expr) {
 				id, ok := ast.Unparen(lhs).(*ast.Ident)
 				if !ok {
 					return
 				}
 				o := f.objOf(id)
+				noteBool(st, o, rhs)
 				if _, tr := tracked[o]; !tr {
 					return
 				}
@@ -220,6 +273,9 @@ func ruleNilLocal(c *Ctx) []Obligation {
 									if _, tr := tracked[o]; tr {
 										st.st[o] = 1
 									}
+									if i < len(vs.Values) {
+										noteBool(st, o, vs.Values[i])
+									}
 									if o != nil && f.isFlag(o) && i < len(vs.Values) {
 										if v, ok := r2sibBoolConst(info, vs.Values[i]); ok {
 											st.flags[o] = v
@@ -258,6 +314,21 @@ func ruleNilLocal(c *Ctx) []Obligation {
 							st.dec = append(st.dec, fmt.Sprintf("%s=%v", exprStr(cond), taken))
 							return st, true
 						}
+					}
+				}
+				if id, ok := ast.Unparen(cond).(*ast.Ident); ok {
+					if nt, held := st.nilb[info.Uses[id]]; held {
+						isNil := nt.eq == taken
+						if st.st[nt.of] == 1 && !isNil {
+							return st, false // infeasible
+						}
+						if isNil {
+							st.st[nt.of] = 1
+						} else {
+							st.st[nt.of] = 2
+						}
+						st.dec = append(st.dec, fmt.Sprintf("%s=%v", exprStr(cond), taken))
+						return st, true
 					}
 				}
 				checkUses(st, cond)
